@@ -65,6 +65,10 @@ func c14Gen(seed uint64, run int, tier string) *Case {
 				}
 				cnt := r.Pick(0, 1, eff-1, eff, eff+1, 2*eff, 3*eff+1, r.Intn(3*eff+1))
 				kind := []string{"cread", "cwrite", "fread", "fwrite", "readat", "writeat", "readn", "written", "seqread"}[r.Intn(9)]
+				if (kind == "cread" || kind == "readat" || kind == "readn") && r.Pct(12) {
+					// far beyond the end of any file here, beyond 32 bits: no data
+					off = r.Pick(1<<32, 1<<32+1, 1<<32+flen/2, 1<<40)
+				}
 				if kind == "seqread" && cnt < flen/40+1 {
 					cnt = flen/40 + 1 // at most ~40 round trips per sequential pass
 				}
